@@ -59,10 +59,17 @@ func (s *c02State) planAndRender(leg c02Leg, nonce string, defects []c02Defect, 
 	for _, name := range c02DefectOrder {
 		for _, d := range defects {
 			if d.Name == name && c02ApplyPresentationDefect(c, r, d, s.fx.issuer) {
-				if c02NoExpectation[d.Name] {
+				if c02NoExpectation[d.Name] || (leg.PD.lax() && c02NeedsRequiredDescriptors[d.Name]) {
 					realised = append(realised, "~"+d.Name)
 				} else {
 					realised = append(realised, d.Name)
+				}
+				if d.Name == "nothing_presented" {
+					sr := leg.PD.SubReq
+					if sr == "" {
+						sr = "none"
+					}
+					s.x.Classf("nothing_presented:variant=%d,sub_req=%s,%s", d.Arg%8, sr, c.Flow)
 				}
 				if d.Name == "aud_near_miss" {
 					s.x.Classf("aud_near_miss:variant=%d,plain-string=%v,%s,%s", d.Arg%13, (d.Arg/12)%2 == 1, c.VPFmt, c.Flow)
@@ -116,6 +123,10 @@ func (s *c02State) s2sHonest(tag string) (c02TokenResult, []string) {
 // c02NoExpectation: variations whose acceptance the property neither demands nor forbids. They are realised as "~name":
 // a request whose only deviations are of this kind is sent and counted, never judged.
 var c02NoExpectation = map[string]bool{"aud_equivalent": true, "aud_array_contains": true}
+
+// c02NeedsRequiredDescriptors: defects that are defects only because the definition requires a credential for the
+// descriptor concerned. Against a definition whose requirements have no lower bound (lax) they carry no expectation.
+var c02NeedsRequiredDescriptors = map[string]bool{"nothing_presented": true, "unfulfilled": true, "forged_map": true}
 
 // c02Strict returns the deviations that carry the "must be refused" expectation, and whether there are others.
 func c02Strict(defects []string) (strict []string, soft bool) {
@@ -795,6 +806,13 @@ func c02Run(x *h.Ctx, c c02Case) {
 		if sc.Combo {
 			x.Class("policy:has-key-with-blank")
 		}
+	}
+	for _, l := range s.legs() {
+		sr := l.PD.SubReq
+		if sr == "" {
+			sr = "none"
+		}
+		x.Classf("sub_req:%s,descriptors=%d", sr, len(l.PD.Descs))
 	}
 	for _, l := range s.legs() {
 		for _, d := range l.PD.Descs {
